@@ -64,22 +64,32 @@ Proof.
   destruct ((t <? g_start h) && (g_start h <? e)) eqn:B; inversion E; subst; lia.
 Qed.
 
+Lemma init_bounds_spec d t :
+  0 < d -> MinNano <= t <= MaxNano ->
+  MinNano <= fst (init_bounds d t) <= t /\ t < snd (init_bounds d t) <= MaxInt64.
+Proof.
+  intros Hd Ht. unfold init_bounds. cbn [fst snd]. pose proof (truncate_bounds t d Hd).
+  destruct (truncate t d <? MinNano) eqn:A; destruct (MaxNano <? truncate t d + d) eqn:B;
+    unfold MaxNano, MaxInt64 in *; lia.
+Qed.
+
 Lemma new_bounds_contains gs d t :
   0 < d -> MinNano <= t <= MaxNano ->
   fst (new_bounds gs d t) <= t < snd (new_bounds gs d t).
 Proof.
-  intros Hd Ht. unfold new_bounds. apply clip_fold_contains.
-  pose proof (truncate_bounds t d Hd). destruct (MaxNano <? truncate t d + d) eqn:E; lia.
+  intros Hd Ht. unfold new_bounds. pose proof (init_bounds_spec d t Hd Ht) as B.
+  destruct (init_bounds d t) as [s e]. cbn [fst snd] in B. apply clip_fold_contains. lia.
 Qed.
 
+(** whatever groups exist, the new bounds are int64 instants: the start stays in
+    [MinNanoTime, t], the end in (t, MaxInt64] *)
 Lemma new_bounds_range gs d t :
   0 < d -> MinNano <= t <= MaxNano ->
-  truncate t d <= fst (new_bounds gs d t) /\ snd (new_bounds gs d t) <= MaxInt64.
+  MinNano <= fst (new_bounds gs d t) /\ snd (new_bounds gs d t) <= MaxInt64.
 Proof.
-  intros Hd Ht. unfold new_bounds.
-  pose proof (truncate_bounds t d Hd).
-  match goal with |- context [fold_left _ gs (?s, ?e)] => pose proof (clip_fold_mono t gs s e) as M end.
-  destruct (MaxNano <? truncate t d + d) eqn:E; unfold MaxNano, MaxInt64 in *; lia.
+  intros Hd Ht. unfold new_bounds. pose proof (init_bounds_spec d t Hd Ht) as B.
+  destruct (init_bounds d t) as [s e]. cbn [fst snd] in B.
+  pose proof (clip_fold_mono t gs s e) as M. lia.
 Qed.
 
 (** ---------- lookup ---------- *)
@@ -176,9 +186,10 @@ Proof.
   rewrite F. cbn. lia.
 Qed.
 
-(** bounds invariant of every group in a reachable state: the end is an int64
-    instant, the start is at most MaxInt64 (it may lie BELOW MinInt64) *)
-Definition GInv (g : group) : Prop := g_start g <= MaxInt64 /\ MinInt64 <= g_end g <= MaxInt64.
+(** bounds invariant of every group in a reachable state: both bounds are int64
+    nanosecond instants (since the start clamp of commit f8af500a39) *)
+Definition GInv (g : group) : Prop :=
+  MinInt64 <= g_start g <= MaxInt64 /\ MinInt64 <= g_end g <= MaxInt64.
 
 Definition Inv (st : state) : Prop := DisjL (st_gs st) /\ Forall GInv (st_gs st) /\ 0 < st_d st.
 
@@ -214,17 +225,16 @@ Proof.
   - pose proof (wrap64_ge z H). pose proof (wrap64_range z). lia.
 Qed.
 
-Lemma reload_group_sep x y : GInv x -> GInv y -> sepP x y -> sepP (reload_group x) (reload_group y).
+Lemma reload_group_id g : GInv g -> reload_group g = g.
 Proof.
-  intros [Hxs Hxe] [Hys Hye] H. unfold sepP, reload_group, unmarshal_bound in *. cbn.
-  rewrite (marshal_id (g_end x) Hxe), (marshal_id (g_end y) Hye).
-  pose proof (marshal_ge (g_start x) Hxs). pose proof (marshal_ge (g_start y) Hys). lia.
+  intros [Hs He]. unfold reload_group, unmarshal_bound.
+  rewrite (marshal_id _ Hs), (marshal_id _ He). destruct g; reflexivity.
 Qed.
 
-Lemma reload_group_inv x : GInv x -> GInv (reload_group x).
+Lemma reload_all_id gs : Forall GInv gs -> map reload_group gs = gs.
 Proof.
-  intros [Hs He]. unfold GInv, reload_group, unmarshal_bound; cbn.
-  rewrite (marshal_id (g_end x) He). pose proof (marshal_ge (g_start x) Hs). lia.
+  induction gs as [|g gs IH]; intro H; [reflexivity|]. inversion H; subst. cbn.
+  rewrite reload_group_id, IH; auto.
 Qed.
 
 Lemma create_preserves_inv st t :
@@ -239,10 +249,10 @@ Proof.
   - apply DisjL_app_last; [exact HD|]. rewrite Forall_forall. intros h Hin.
     unfold sepP. destruct (g_del h) eqn:Dh; [left; reflexivity|]. right; right.
     pose proof (by_timestamp_none _ _ h Hnone Hin Dh) as Hnc.
-    pose proof (clip_fold_sep t (st_gs st) (truncate t (st_d st))
-                  (if MaxNano <? truncate t (st_d st) + st_d st then MaxNano + 1 else truncate t (st_d st) + st_d st)
+    pose proof (clip_fold_sep t (st_gs st) (fst (init_bounds (st_d st) t)) (snd (init_bounds (st_d st) t))
                   h Hin Dh Hnc) as S.
-    subst g; cbn. unfold new_bounds. destruct S; [left|right]; lia.
+    rewrite <- surjective_pairing in S. fold (new_bounds (st_gs st) (st_d st) t) in S.
+    subst g; cbn. destruct S; [left|right]; lia.
   - apply Forall_app; split; [exact HG|]. constructor; [|constructor].
     subst g; unfold GInv; cbn. unfold in_range, MinNano, MaxNano, MaxInt64, MinInt64 in *. lia.
 Qed.
@@ -265,9 +275,7 @@ Qed.
 Lemma reload_preserves_inv st :
   Inv st -> Inv {| st_gs := map reload_group (st_gs st); st_next := st_next st; st_d := st_d st |}.
 Proof.
-  intros (HD & HG & Hd). unfold Inv; cbn. split; [|split; [|exact Hd]].
-  - apply (DisjL_map GInv); auto. intros; apply reload_group_sep; assumption.
-  - apply Forall_map. rewrite Forall_forall in *. intros x Hx. apply reload_group_inv; auto.
+  intros (HD & HG & Hd). unfold Inv; cbn. rewrite (reload_all_id _ HG). auto.
 Qed.
 
 (** ---------- MapShards ---------- *)
@@ -362,33 +370,15 @@ Proof. intro H. unfold Inv, init; cbn. auto. Qed.
 
 (** ---------- reload ---------- *)
 
-Definition InInt64 (g : group) : Prop :=
-  MinInt64 <= g_start g <= MaxInt64 /\ MinInt64 <= g_end g <= MaxInt64.
-
-Lemma reload_group_id g : InInt64 g -> reload_group g = g.
+(** the group created for any representable timestamp, whatever groups exist *)
+Lemma created_in_int64 gs d t id :
+  0 < d -> in_range t ->
+  GInv {| g_id := id; g_start := fst (new_bounds gs d t); g_end := snd (new_bounds gs d t); g_del := false |}.
 Proof.
-  intros [Hs He]. unfold reload_group, unmarshal_bound.
-  rewrite (marshal_id _ Hs), (marshal_id _ He). destruct g; reflexivity.
-Qed.
-
-Lemma reload_all_id gs : Forall InInt64 gs -> map reload_group gs = gs.
-Proof.
-  induction gs as [|g gs IH]; intro H; [reflexivity|]. inversion H; subst. cbn.
-  rewrite reload_group_id, IH; auto.
-Qed.
-
-(** the window of [t] starts inside the int64 range => so does the new group *)
-Lemma created_in_int64 gs d t :
-  0 < d -> in_range t -> MinInt64 <= truncate t d ->
-  InInt64 {| g_id := 0%N; g_start := fst (new_bounds gs d t); g_end := snd (new_bounds gs d t); g_del := false |}.
-Proof.
-  intros Hd Ht Htr. unfold InInt64; cbn.
+  intros Hd Ht. unfold GInv; cbn.
   pose proof (new_bounds_contains gs d t Hd Ht). pose proof (new_bounds_range gs d t Hd Ht).
   unfold in_range, MinNano, MaxNano, MaxInt64, MinInt64 in *. lia.
 Qed.
-
-Lemma truncate_gt t d : 0 < d -> t - d < truncate t d.
-Proof. intro Hd. pose proof (truncate_bounds t d Hd). lia. Qed.
 
 (** ---------- range queries ---------- *)
 
